@@ -273,19 +273,19 @@ RETCODE adfRemoveEntry ( struct AdfVolume * const vol,
     nSect = adfNameToEntryBlk(vol, parent.hashTable, name, &entry, &nSect2);
     if (nSect==-1) {
       sprintf(buf, "adfRemoveEntry : entry '%s' not found", name);
-        (*adfEnv.wFct)(buf);
+        (*adfEnv.wFct)("%s", buf);
         return RC_ERROR;
     }
     /* if it is a directory, is it empty ? */
     if ( entry.secType==ST_DIR && !isDirEmpty((struct bDirBlock*)&entry) ) {
       sprintf(buf, "adfRemoveEntry : directory '%s' not empty", name);
-        (*adfEnv.wFct)(buf);
+        (*adfEnv.wFct)("%s", buf);
         return RC_ERROR;
     }
     /* only files and directories can be removed: say so before anything is modified */
     if ( entry.secType != ST_FILE && entry.secType != ST_DIR ) {
       sprintf(buf, "adfRemoveEntry : secType %d not supported", entry.secType);
-        (*adfEnv.wFct)(buf);
+        (*adfEnv.wFct)("%s", buf);
         return RC_ERROR;
     }
 
@@ -332,7 +332,7 @@ RETCODE adfRemoveEntry ( struct AdfVolume * const vol,
     }
     else {
       sprintf(buf, "adfRemoveEntry : secType %d not supported", entry.secType);
-        (*adfEnv.wFct)(buf);
+        (*adfEnv.wFct)("%s", buf);
         return RC_ERROR;
     }
 
